@@ -39,6 +39,9 @@ type C03Case struct {
 	Queries []string `json:"queries"`
 	Options []Opts   `json:"options"`
 	Ops     []C03Op  `json:"ops"`
+	// Big: when > 0, the first database is blown up to this many entries by cycling its entries (a counter
+	// word is appended to each copy): limits that only bite on thousands of matches become reachable
+	Big int `json:"big,omitempty"`
 }
 
 var oddTexts = []string{"größe anzeigen", "日本語 ファイル", "naïve café", "snake_case_name", "dots.and-dashes", "x", "a b c", "UPPER lower MiXed", "tar!zip?", "(paren) [bracket]", "tab\tsep", "emoji 😀 disk", "bad\xffutf8 disk", "123 4567", "v2.0-beta", "", "the and of", "zip,tar;gz"}
@@ -74,6 +77,9 @@ func genC03(rt *rapid.T) C03Case {
 	ndb := rapid.IntRange(1, 4).Draw(rt, "ndb")
 	for i := 0; i < ndb; i++ {
 		c.DBs = append(c.DBs, genC03DB(rt, rapid.SampledFrom([]int{0, 3, 12, tierN(30, 80)}).Draw(rt, "dbmax")))
+	}
+	if rapid.IntRange(0, 249).Draw(rt, "big") == 125 {
+		c.Big = rapid.SampledFrom([]int{1100, 2100, 2600, 4200}).Draw(rt, "bign")
 	}
 	nq := rapid.IntRange(1, 4).Draw(rt, "nq")
 	for i := 0; i < nq; i++ {
@@ -177,6 +183,18 @@ func refIndex(cmds []database.Command) ([]refDoc, [4]float64, map[string]int) {
 
 func runC03(c C03Case) *Outcome {
 	o := &Outcome{Probes: map[string]int{}}
+	if c.Big > 0 && len(c.DBs) > 0 && len(c.DBs[0]) > 0 {
+		base := c.DBs[0]
+		big := make([]Cmd, 0, c.Big)
+		for i := 0; len(big) < c.Big; i++ {
+			e := base[i%len(base)]
+			e.Description = fmt.Sprintf("%s n%d", e.Description, i)
+			big = append(big, e)
+		}
+		dbs := append([][]Cmd{big}, c.DBs[1:]...)
+		c.DBs = dbs
+		o.Probes["c03.big_database"] = 1
+	}
 	simrt.SetOrderCanonical()
 	simtime.Install(simtime.Epoch)
 	defer simtime.Uninstall()
